@@ -2,6 +2,7 @@
 C05 (byte level) — "a space-separated sequence of SPDX tokens is accepted iff it derives from the grammar".
 -/
 import SpdxVerif.Lemmas.Spaced
+import SpdxVerif.Lemmas.Layout
 import SpdxVerif.Props.C05
 namespace Spdx.C05
 
@@ -22,6 +23,43 @@ theorem parse_spaced (ls : List Lexeme) (h : ∀ l ∈ ls, l.OK) (n : Node) :
   constructor
   · rintro ⟨ts, h1, h2⟩; exact ⟨ts, h1, (parseTokens_iff _ _).mp h2⟩
   · rintro ⟨ts, h1, h2⟩; exact ⟨ts, h1, (parseTokens_iff _ _).mpr h2⟩
+
+/-- **C05 in loose and tight spacing.** The same for every LAYOUT of the lexemes: any number of spaces before each lexeme and
+at the end of the text, and no space at all wherever a parenthesis stands on one side (`(MIT)AND(ISC)`, `( MIT )`,
+`  MIT   AND ISC  `): the text is accepted iff every word is recognised and the token sequence derives from the grammar —
+the layout plays no part. -/
+theorem accepts_layout_iff (ps : List (Nat × Lexeme)) (t : Nat) (h : ∀ p ∈ ps, p.2.OK) (ht : TightOK ps) :
+    valid (laidOut ps t) = true ↔ ∃ ts n, allToks (ps.map (·.2)) = some ts ∧ D .expr ts n := by
+  rw [valid_iff_toks, toks_laidOut ps t h ht]
+  constructor
+  · rintro ⟨ts, n, h1, h2⟩; exact ⟨ts, n, h1, (parseTokens_iff _ _).mp h2⟩
+  · rintro ⟨ts, n, h1, h2⟩; exact ⟨ts, n, h1, (parseTokens_iff _ _).mpr h2⟩
+
+theorem parse_layout (ps : List (Nat × Lexeme)) (t : Nat) (h : ∀ p ∈ ps, p.2.OK) (ht : TightOK ps) (n : Node) :
+    parse (laidOut ps t) = .ok n ↔ ∃ ts, allToks (ps.map (·.2)) = some ts ∧ D .expr ts n := by
+  rw [parse_ok_iff, toks_laidOut ps t h ht]
+  constructor
+  · rintro ⟨ts, h1, h2⟩; exact ⟨ts, h1, (parseTokens_iff _ _).mp h2⟩
+  · rintro ⟨ts, h1, h2⟩; exact ⟨ts, h1, (parseTokens_iff _ _).mpr h2⟩
+
+/-- **the layout is irrelevant**: two layouts of the same lexemes are parsed to the same result -/
+theorem layout_irrelevant (ps qs : List (Nat × Lexeme)) (t u : Nat) (hp : ∀ p ∈ ps, p.2.OK) (hpt : TightOK ps)
+    (hqt : TightOK qs) (hsame : ps.map (·.2) = qs.map (·.2)) :
+    (parse (laidOut ps t)).toOption = (parse (laidOut qs u)).toOption := by
+  have hq : ∀ p ∈ qs, p.2.OK := by
+    intro p hpq
+    have : p.2 ∈ qs.map (·.2) := List.mem_map.mpr ⟨p, hpq, rfl⟩
+    rw [← hsame] at this
+    obtain ⟨p', hp', he⟩ := List.mem_map.mp this
+    rw [← he]; exact hp p' hp'
+  have key : ∀ n, parse (laidOut ps t) = .ok n ↔ parse (laidOut qs u) = .ok n := by
+    intro n; rw [parse_layout ps t hp hpt, parse_layout qs u hq hqt, hsame]
+  cases h1 : parse (laidOut ps t) with
+  | ok n => rw [(key n).mp h1]
+  | error e =>
+    cases h2 : parse (laidOut qs u) with
+    | ok n => rw [(key n).mpr h2] at h1; cases h1
+    | error e' => rfl
 
 /-- which words are recognised (not followed by `+`): a word on the active or exception list; such a word with `-only` or
     `-or-later` appended; a word on the deprecated list — all up to letter case -/
@@ -77,6 +115,16 @@ example : valid (spaced [mit, .kwWith]) = false := by decide +kernel            
 example : valid (spaced [cpe]) = false := by decide +kernel                            -- exception without WITH
 example : valid (spaced [foo]) = false := by decide +kernel                            -- unknown id
 example : valid (spaced [.licRef [120], .kwWith, cpe]) = false := by decide +kernel    -- WITH on a LicenseRef
+-- a tight / loose layout that meets the hypotheses: `  (MIT)AND( GPL-2.0+   WITH Classpath-exception-2.0 ) `
+private def lay : List (Nat × Lexeme) := [(2, .lparen), (0, mit), (0, .rparen), (0, .kwAnd), (0, .lparen), (1, gpl2p), (3, .kwWith), (1, cpe), (1, .rparen)]
+example : TightOK lay := by simp [lay, TightOK, Lexeme.isParen]
+example : ∀ p ∈ lay, p.2.OK := by
+  intro p hp
+  simp only [lay, List.mem_cons, List.not_mem_nil, or_false] at hp
+  rcases hp with rfl | rfl | rfl | rfl | rfl | rfl | rfl | rfl | rfl
+  all_goals first | trivial | exact ⟨by decide +kernel, by decide +kernel, by decide +kernel, by decide +kernel, by decide +kernel⟩
+example : valid (laidOut lay 1) = true := by decide +kernel
+example : laidOut lay 1 = str "  (MIT)AND( GPL-2.0+   WITH Classpath-exception-2.0 ) " := by decide +kernel
 end
 
 end Spdx.C05
